@@ -383,6 +383,91 @@ func (ch c02) Run(c *core.Ctx) {
 		c.Count("close_during_traffic_rounds", 1)
 		c.Eval(fmt.Sprintf("close during traffic %d", len(conns)), true)
 	}
+	// (f) writes interrupted half-way: the k-th transport Write of a canonical session takes half of its
+	// bytes and returns a temporary (timeout) error, for every k. Whether the server gives the connection
+	// up or completes the message, what the client has received is whole messages and, only at the very
+	// end of a given-up connection, the accepted half of the interrupted one
+	if c.Begin(3500000) {
+		for si, s := range canon {
+			if si%ch.Batches(c.Tier) != c.Batch || c.NViol() >= 10 {
+				continue
+			}
+			mk := func(k int) *tr.Conn {
+				sess := c04sess()
+				if p, ok := c04genProgs[s.Name]; ok {
+					sess.Progs = p
+				}
+				conn := tr.NewConn(sess)
+				conn.NoLog = true
+				conn.TempWriteAt = k
+				if s.Auth {
+					envAuth.L.DialConn(conn)
+				} else {
+					env.L.DialConn(conn)
+				}
+				for _, m := range s.Msgs {
+					conn.Send(m)
+				}
+				conn.Quiesce()
+				conn.CloseWrite()
+				if !conn.WaitClosed() {
+					return nil
+				}
+				return conn
+			}
+			base := mk(0)
+			if base == nil {
+				c.Inconclusive("connection did not close (C02 interrupted-write workload)")
+				return
+			}
+			for k := 1; k <= base.Stats().Writes; k++ {
+				conn := mk(k)
+				if conn == nil {
+					c.Inconclusive("connection did not close (C02 interrupted-write workload)")
+					return
+				}
+				out := conn.Out()
+				stream := s.stream()
+				if len(out) > 0 && (out[0] == 'N' || out[0] == 'S') && len(stream) >= 8 && binary.BigEndian.Uint32(stream[4:8]) == pg.VerSSL {
+					out = out[1:]
+				}
+				msgs, rest, err := pg.ParseStream(out)
+				c.Count("interrupted_write_runs", 1)
+				if conn.TempFired() > 0 {
+					c.Count("interrupted_writes_delivered", 1)
+				}
+				c.Count("backend_messages_parsed", int64(len(msgs)))
+				cs := map[string]any{"session": s.Name, "interrupted_write": k}
+				if err != nil {
+					c.Violate("grammar", "after an interrupted write: "+grammarSig(err), fmt.Sprintf("%s, write %d interrupted half-way: %v; messages before it: %s; raw tail: %s", s.Name, k, err, trim(pg.Kinds(msgs), 300), hexs(out[len(out)-min(len(out), rest):])), cs)
+					break
+				}
+				if rest != 0 {
+					c.Count("given_up_after_interrupted_write", 1)
+					// (the order of the ParameterStatus messages differs from run to run: the half must be the
+					// head of one of the messages the uninterrupted run sends, whichever)
+					tail, head := out[len(out)-rest:], false
+					bo := base.Out()
+					if len(bo) > 0 && len(bo) != len(conn.Out()) && (bo[0] == 'N' || bo[0] == 'S') && len(stream) >= 8 && binary.BigEndian.Uint32(stream[4:8]) == pg.VerSSL {
+						bo = bo[1:]
+					}
+					for off := 0; off+5 <= len(bo); {
+						l := int(binary.BigEndian.Uint32(bo[off+1:off+5])) + 1
+						if l < 5 || off+l > len(bo) {
+							break
+						}
+						head = head || bytes.HasPrefix(bo[off:off+l], tail)
+						off += l
+					}
+					if !head {
+						c.Violate("partial", "bytes of an interrupted message are followed by other output", fmt.Sprintf("%s, write %d: %d trailing bytes after %s are not the head of the message the uninterrupted run sends there", s.Name, k, rest, trim(pg.Kinds(msgs), 300)), cs)
+						break
+					}
+				}
+				c.Eval(fmt.Sprintf("interrupted write %s %d", s.Name, k), true)
+			}
+		}
+	}
 	// (c) buffer.Writer API model
 	for i := 0; i < nwr; i++ {
 		if !c.Begin(2000000+i) || c.NViol() >= 10 {
@@ -400,24 +485,35 @@ func grammarSig(err error) string {
 	return core.NormDigits(trim(s, 90))
 }
 
+// flakySink fails chosen Write calls: 1 = nothing taken, plain error; 2 = nothing taken, temporary
+// (timeout) error; 3 = half taken, temporary error; 4 = half taken, plain error.
 type flakySink struct {
 	buf    bytes.Buffer
 	calls  int
-	failAt map[int]bool
+	failAt map[int]int
 }
 
 func (f *flakySink) Write(p []byte) (int, error) {
 	f.calls++
-	if f.failAt[f.calls] {
-		return 0, errors.New("sink: transient failure")
+	switch f.failAt[f.calls] {
+	case 1:
+		return 0, errors.New("sink: failure")
+	case 2:
+		return 0, tr.ErrTemporary
+	case 3:
+		f.buf.Write(p[:len(p)/2])
+		return len(p) / 2, tr.ErrTemporary
+	case 4:
+		f.buf.Write(p[:len(p)/2])
+		return len(p) / 2, errors.New("sink: failure after a partial write")
 	}
 	return f.buf.Write(p)
 }
 
 func (ch c02) writerModel(c *core.Ctx, rng *core.Rng, idx int) {
-	sink := &flakySink{failAt: map[int]bool{}}
+	sink := &flakySink{failAt: map[int]int{}}
 	for k := rng.Intn(3); k > 0; k-- {
-		sink.failAt[1+rng.Intn(6)] = true
+		sink.failAt[1+rng.Intn(6)] = 1 + rng.Intn(4)
 	}
 	w := buffer.NewWriter(hs.Quiet, sink)
 	var want []byte
@@ -425,7 +521,7 @@ func (ch c02) writerModel(c *core.Ctx, rng *core.Rng, idx int) {
 	var typ byte
 	started := false
 	shape := ""
-	failedEnds := 0
+	failedEnds, refused := 0, 0
 	n := 2 + rng.Intn(25)
 	for k := 0; k < n; k++ {
 		op := rng.Intn(9)
@@ -469,26 +565,48 @@ func (ch c02) writerModel(c *core.Ctx, rng *core.Rng, idx int) {
 			body = append(body, 0)
 			shape += "0"
 		case 7:
-			willFail := sink.failAt[sink.calls+1]
+			fault := sink.failAt[sink.calls+1]
+			callsBefore := sink.calls
 			err := w.End()
-			if willFail {
-				failedEnds++
-				if err == nil {
-					c.Violate("writer", "End reported success although the sink failed", shape, nil)
-					return
-				}
-			} else {
-				if err != nil {
-					c.Violate("writer", "End failed although the sink accepted the frame", err.Error()+" "+shape, nil)
-					return
-				}
-				want = append(want, typ)
-				l := uint32(len(body) + 4)
-				want = append(want, byte(l>>24), byte(l>>16), byte(l>>8), byte(l))
-				want = append(want, body...)
-			}
+			l := uint32(len(body) + 4)
+			frame := append([]byte{typ, byte(l >> 24), byte(l >> 16), byte(l >> 8), byte(l)}, body...)
 			started = false
 			shape += "E"
+			if fault == 0 && err != nil && failedEnds > 0 && sink.calls == callsBefore {
+				// a writer may refuse further frames once its sink has failed (as bufio.Writer does):
+				// the refused frame reaches the sink not at all
+				refused++
+				shape += "x"
+				continue
+			}
+			switch {
+			case fault == 0 && err != nil:
+				c.Violate("writer", "End failed although the sink accepted the frame", err.Error()+" "+shape, nil)
+				return
+			case (fault == 1 || fault == 4) && err == nil:
+				c.Violate("writer", "End reported success although the sink failed for good", shape, nil)
+				return
+			case err == nil:
+				// no fault, or a temporary one the writer recovered from: exactly one frame
+				want = append(want, frame...)
+			default:
+				failedEnds++
+				shape += fmt.Sprintf("!%d", fault)
+				// a failed End: the sink holds the frames of the successful Ends and, at most, the bytes
+				// it accepted of this one. With such a half on the wire the stream is over.
+				got := sink.buf.Bytes()
+				if !bytes.HasPrefix(got, want) || !bytes.HasPrefix(frame, got[len(want):]) {
+					c.Violate("writer", "a failed End left bytes at the sink that are not the head of its frame", fmt.Sprintf("ops %s: sink %s want %s + a prefix of %s", shape, hexs(got), hexs(want), hexs(frame)), map[string]any{"ops": shape})
+					return
+				}
+				if len(got) > len(want) {
+					c.Count("writer_sequences", 1)
+					c.Count("writer_failed_ends", int64(failedEnds))
+					c.Count("writer_partial_frames_on_the_wire", 1)
+					c.Eval("writer "+shape, true)
+					return
+				}
+			}
 		default:
 			w.Reset()
 			started = false
@@ -497,6 +615,7 @@ func (ch c02) writerModel(c *core.Ctx, rng *core.Rng, idx int) {
 	}
 	c.Count("writer_sequences", 1)
 	c.Count("writer_failed_ends", int64(failedEnds))
+	c.Count("writer_frames_refused_after_a_failure", int64(refused))
 	c.Eval("writer "+shape, failedEnds > 0 || strings.Contains(shape, "R") || strings.Contains(shape, "SS"))
 	if !bytes.Equal(sink.buf.Bytes(), want) {
 		c.Violate("writer", "bytes reaching the sink differ from 'one frame per successful End'", fmt.Sprintf("ops %s: sink %s want %s", shape, hexs(sink.buf.Bytes()), hexs(want)), map[string]any{"ops": shape})
